@@ -50,8 +50,8 @@ func (Keeper).CalculateBaseFee
     ensures disabled: !enabled ==> result == nil
     ensures first: enabled && h == p.EnableHeight ==> result != nil && *result == b
     ensures notarget: enabled && h != p.EnableHeight && T > 18446744073709551615 ==> result == nil
-    ensures equal: enabled && h != p.EnableHeight && T <= 18446744073709551615 && g == T ==> result != nil && *result == b
-    ensures increase: enabled && h != p.EnableHeight && T <= 18446744073709551615 && g > T
+    ensures equal: enabled && h != p.EnableHeight && T <= 18446744073709551615 && (g == T || T == 0) ==> result != nil && *result == b
+    ensures increase: enabled && h != p.EnableHeight && T <= 18446744073709551615 && g > T && T != 0
             ==> result != nil && *result == b + imax(1, ((b * (g - T)) / T) / den)
     ensures decrease: enabled && h != p.EnableHeight && T <= 18446744073709551615 && g < T
             ==> result != nil && *result == imax(b - ((b * (T - g)) / T) / den, floor)
